@@ -30,10 +30,12 @@ def cases(text):
     cs, cur = [], None
     for l in text.splitlines():
         if l.startswith("N "):
-            cur = {"k": int(l.split()[1]), "lines": [], "src": {}}
+            cur = {"k": int(l.split()[1]), "lines": [], "src": {}, "delays": ""}
             cs.append(cur)
         elif cur is not None:
             cur["lines"].append(l)
+            if l.startswith("D"):
+                cur["delays"] = l[2:].strip()
             f = l.split(" ", 3)
             if len(f) == 4 and f[0] == "M" and f[2] == "S":
                 cur["src"].setdefault(int(f[1]), []).append(f[3])
@@ -61,7 +63,7 @@ def stream_ok(written, got):
 
 def compare(impl, model):
     ci, cm = cases(impl), cases(model)
-    st = {"cases": len(ci), "ticks": 0, "transfers": 0, "captures": 0, "back_to_back_prod": 0, "back_to_back_cons": 0,
+    st = {"with_delays": 0, "cases": len(ci), "ticks": 0, "transfers": 0, "captures": 0, "back_to_back_prod": 0, "back_to_back_cons": 0,
           "fanout": {}, "vt_ok": 0, "rt_ok": 0, "distinct": set()}
     fails = []
     if len(ci) != len(cm):
@@ -70,7 +72,9 @@ def compare(impl, model):
         k = a["k"]
         st["fanout"][str(k)] = st["fanout"].get(str(k), 0) + 1
         srcs = [a["src"].get(i, []) for i in range(k + 1)]
-        base = {"k": k, "src": srcs}
+        base = {"k": k, "src": srcs, "delays": a.get("delays", "")}
+        if a.get("delays"):
+            st["with_delays"] = st.get("with_delays", 0) + 1
         for i, s in enumerate(srcs):
             for x, y in zip(s, s[1:]):
                 if x.split()[0] == y.split()[0] and x.split()[0] in ("r2owa", "i2rw"):
@@ -90,8 +94,9 @@ def compare(impl, model):
                 break
             dx, dy = kvs(x), kvs(y)
             pre, post = ints(dx["pre"]), ints(dx["post"])
-            ps = "1" if (pre[0] in io.get(0, []) and post[0] != pre[0]) else "0"
-            cs = ",".join("1" if (pre[i] in io.get(i, []) and post[i] != pre[i]) else "0" for i in range(1, k + 1))
+            dl = ints(dx.get("dl", "")) or [0] * (k + 1)
+            ps = "1" if (pre[0] in io.get(0, []) and dl[0] == 0 and post[0] != pre[0]) else "0"
+            cs = ",".join("1" if (pre[i] in io.get(i, []) and dl[i] == 0 and post[i] != pre[i]) else "0" for i in range(1, k + 1))
             st["ticks"] += 1
             st["transfers"] += ps == "1"
             st["captures"] += cs.count("1")
@@ -150,7 +155,7 @@ def replay_case(hbin, case, ticks=200):
     d = vlib.scratch_dir("c04")
     f = os.path.join(d, "replay.txt")
     with open(f, "w") as fh:
-        fh.write("N %d\nTICKS %d\n" % (case["k"], ticks))
+        fh.write("N %d\nTICKS %d\nD %s\n" % (case["k"], ticks, case.get("delays", "")))
         for i, s in enumerate(case["src"]):
             for l in s:
                 fh.write("M %d S %s\n" % (i, l))
@@ -176,11 +181,12 @@ def run(rep):
                    "oracle as Write_verilog_main does it (that wiring is C02's subject)"])
     rep.assumptions += [
         "one producer output bonded to k >= 1 consumer inputs; agents are busy (any non-IO code, any duration) or at an IO instruction of this bond",
-        "SimDelay distributions are not used (relative speeds are varied through instruction padding)",
+        "relative speeds are varied through instruction padding and through simbox per-opcode delays (one certain value per opcode; "
+        "random distributions are not used so that runs replay)",
         "sicv3 (also anchored) is not modelled; liveness (no deadlock under fair schedules) is checked on the implementation "
         "(a net that stops transferring is reported) but not proved",
     ]
-    tot = {"cases": 0, "ticks": 0, "transfers": 0, "captures": 0, "back_to_back_prod": 0, "back_to_back_cons": 0, "vt_ok": 0, "rt_ok": 0}
+    tot = {"with_delays": 0, "cases": 0, "ticks": 0, "transfers": 0, "captures": 0, "back_to_back_prod": 0, "back_to_back_cons": 0, "vt_ok": 0, "rt_ok": 0}
     fan, distinct, fails, samples = {}, set(), [], []
 
     def absorb(st):
@@ -219,14 +225,14 @@ def run(rep):
     other = [f for f in fails if f["kind"] != "property-fails-on-impl"]
     if real:
         f = real[0]
-        rep.violation({"property": PROP, "kind": f["kind"], "k": f["k"], "src": f["src"], "world": f["world"], "written": f["written"],
+        rep.violation({"property": PROP, "kind": f["kind"], "k": f["k"], "src": f["src"], "delays": f.get("delays", ""), "world": f["world"], "written": f["written"],
                        "consumer": f["consumer"], "got": f["got"], "why": f["why"], "other_failing_cases": len(real) - 1})
     elif other or not pr["ok"]:
         broken = list(pr["broken"])
         detail = None
         if other:
             f = other[0]
-            detail = {k: f.get(k) for k in ("kind", "k", "src", "tick", "impl", "model", "detail")}
+            detail = {k: f.get(k) for k in ("kind", "k", "src", "delays", "tick", "impl", "model", "detail")}
             names = {"sim-correspondence": "BMV.Hs.Isa vs bondmachine.VM", "hdl-correspondence": "BMV.Hs.Rtl vs emitted Verilog under BMV.Vlog",
                      "rtl-model-correspondence": "BMV.Hs.Rtl vs net of BMV.Rtl.cycle"}
             broken.append("correspondence: " + names.get(f["kind"], f["kind"]))
